@@ -154,14 +154,19 @@ class Source:
             if m:
                 name, nth = m.group(1).strip(), int(m.group(2))
             hits = []
+            prefix_hits = []
             for idx, k, nm in self._scan_items(lo, hi):
                 if k != kw:
                     continue
                 if kw == 'impl':
                     if _norm_header(nm) == _norm_header('impl' + name):
                         hits.append(idx)
+                    elif _norm_header(nm).startswith(_norm_header('impl' + name) + 'where'):
+                        prefix_hits.append(idx)
                 elif nm == name:
                     hits.append(idx)
+            if not hits:
+                hits = prefix_hits
             if len(hits) <= nth:
                 raise ExtractError('lost anchor: %s `%s` not found in %s (scope %s)' % (kw, name, self.path, ' / '.join(path[:step_no]) or 'file'))
             if len(hits) > 1 and not m:
@@ -843,6 +848,11 @@ class Extractor:
             pre.append(('ins', '\n', 'wrap'))
             post.insert(0, ('ins', '\n', 'wrap'))
             post.insert(0, ('src', toks[wend].start, toks[wend].end))
+        if spec.get('wrapper'):
+            # the enclosing impl header is replaced by the given one (e.g. a trait impl checked as an inherent impl)
+            pre = [('ins', spec['wrapper'] + ' {\n', name + '/impl-header-override')]
+            post = [('ins', '\n}', name + '/impl-header-override')]
+            self.counts['impl-header-override'] = self.counts.get('impl-header-override', 0) + 1
         # reorder: wrappers outermost first
         allsegs = pre + body + post
         self.items.append({'file': rel, 'item': name, 'kind': kind,
